@@ -714,6 +714,8 @@ class VectorAwkward:
                     if name not in (
                         "x",
                         "y",
+                        "px",
+                        "py",
                         "rho",
                         "pt",
                         "phi",
@@ -721,9 +723,9 @@ class VectorAwkward:
                         names.append(name)
                         arrays.append(self[name])
 
-            if "t" in fields or "tau" in fields:
+            if isinstance(self, Vector4D):
                 cls = cls.ProjectionClass4D
-            elif "z" in fields or "theta" in fields or "eta" in fields:
+            elif isinstance(self, Vector3D):
                 cls = cls.ProjectionClass3D
             else:
                 cls = cls.ProjectionClass2D
@@ -763,6 +765,8 @@ class VectorAwkward:
                     if name not in (
                         "x",
                         "y",
+                        "px",
+                        "py",
                         "rho",
                         "pt",
                         "phi",
@@ -829,6 +833,8 @@ class VectorAwkward:
                     if name not in (
                         "x",
                         "y",
+                        "px",
+                        "py",
                         "rho",
                         "pt",
                         "phi",
@@ -840,7 +846,7 @@ class VectorAwkward:
                         names.append(name)
                         arrays.append(self[name])
 
-            if "t" in fields or "tau" in fields:
+            if isinstance(self, Vector4D):
                 cls = cls.ProjectionClass4D
             else:
                 cls = cls.ProjectionClass3D
@@ -892,6 +898,8 @@ class VectorAwkward:
                     if name not in (
                         "x",
                         "y",
+                        "px",
+                        "py",
                         "rho",
                         "pt",
                         "phi",
@@ -966,6 +974,8 @@ class VectorAwkward:
                     if name not in (
                         "x",
                         "y",
+                        "px",
+                        "py",
                         "rho",
                         "pt",
                         "phi",
